@@ -10,3 +10,6 @@ import FuraxProofs.Props.C19
 #print axioms Furax.C19.inverse_keeps_creation_config
 #print axioms Furax.C19.apply_observes_creation_config
 #print axioms Furax.C19.thread_isolation
+#print axioms Furax.C19.jit_uses_creation_config
+#print axioms Furax.C19.jit_history_uses_creation_configs
+#print axioms Furax.C19.jit_with_forgetful_key_reuses_wrong_trace
